@@ -13,12 +13,25 @@ theorem sumInt_filter_split {α} (l : List α) (c : α → Bool) (f : α → Int
 
 /-- the timers move expiring unstakes into the balance: holdings are unchanged -/
 theorem fire_holdings (h : Int) (a : Account) : (fire h a).holdings = a.holdings := by
-  simp only [fire, Account.holdings, Account.unstaking]
-  have := sumInt_filter_split a.unstakes (fun u => u.2 == h) (·.1)
-  have e : (a.unstakes.filter (fun u => !(u.2 == h))) = a.unstakes.filter (fun u => u.2 != h) := by
-    apply List.filter_congr; intro x _; rfl
-  rw [e] at this
-  omega
+  unfold fire
+  simp only []
+  split
+  · simp only [Account.holdings, Account.unstaking]
+    have := sumInt_filter_split a.unstakes (fun u => u.2 == h) (·.1)
+    have e : (a.unstakes.filter (fun u => !(u.2 == h))) = a.unstakes.filter (fun u => u.2 != h) := by
+      apply List.filter_congr; intro x _; rfl
+    rw [e] at this
+    omega
+  · rfl
+
+theorem fire_stake (h : Int) (a : Account) : (fire h a).stake = a.stake := by
+  unfold fire; simp only []; split <;> rfl
+theorem fire_delegs (h : Int) (a : Account) : (fire h a).delegs = a.delegs := by
+  unfold fire; simp only []; split <;> rfl
+theorem fire_bonds (h : Int) (a : Account) : (fire h a).bonds = a.bonds := by
+  unfold fire; simp only []; split <;> rfl
+theorem fire_unbonds (h : Int) (a : Account) : (fire h a).unbonds = a.unbonds.filter (fun u => u.2.2 != h) := by
+  unfold fire; simp only []; split <;> rfl
 
 def sumF (f : Account → Int) (l : List Account) : Int := sumInt (l.map f)
 
@@ -103,6 +116,7 @@ theorem inv_setBond (w w' : World) (i : Nat) (bs : Votes) (al : Bool) (hi : i < 
   split at h; · cases h
   split at h; · cases h
   split at h; · cases h
+  split at h; · cases h
   cases h
   refine ⟨⟨?_, ?_⟩, by simp [setAcct]⟩
   · simp only [setAcct, sumF_set _ _ _ _ hi, getAcct]
@@ -147,6 +161,15 @@ theorem inv_applyTx (w w' : World) (tx : Tx) (inv : Inv w) (h : applyTx w tx = s
   rename_i hr
   cases tx with
   | none => cases h; exact ⟨inv, rfl⟩
+  | register k =>
+    simp only [registerPRep] at h
+    split at h; · cases h
+    cases h; exact ⟨⟨inv.supply, inv.stake⟩, rfl⟩
+  | unregister k =>
+    simp only [unregisterPRep] at h
+    split at h; · cases h
+    split at h; · cases h
+    cases h; exact ⟨⟨inv.supply, inv.stake⟩, rfl⟩
   | stake i v => exact inv_setStake w w' i v (by simpa [Tx.inRange] using hr) inv h
   | deleg i ds => exact inv_setDelegation w w' i ds (by simpa [Tx.inRange] using hr) inv h
   | bond i bs al => exact inv_setBond w w' i bs al (by simpa [Tx.inRange] using hr) inv h
@@ -159,20 +182,33 @@ theorem inv_fire (w : World) (inv : Inv w) : Inv { w with accts := w.accts.map (
   constructor
   · simp only [sumF_map Account.holdings (fire w.height) (fire_holdings w.height)]
     exact inv.supply
-  · simp only [sumF_map Account.stake (fire w.height) (fun _ => rfl)]
+  · simp only [sumF_map Account.stake (fire w.height) (fire_stake w.height)]
     exact inv.stake
 
-theorem inv_block (w : World) (tx : Tx) (issue : Int) (inv : Inv w) : Inv (block w tx issue).1 := by
+/-- a property kept by every successful transaction is kept by the transaction list of a block -/
+theorem applyTxs_preserves (P : World → Prop) (Q : Tx → Prop)
+    (h : ∀ w w' tx, Q tx → P w → applyTx w tx = some w' → P w') :
+    ∀ (txs : List Tx) (w : World), (∀ tx ∈ txs, Q tx) → P w → P (applyTxs w txs).1 := by
+  intro txs
+  induction txs with
+  | nil => intro w _ hw; exact hw
+  | cons tx rest ih =>
+    intro w hq hw
+    simp only [applyTxs]
+    split
+    · rename_i w' heq
+      exact ih w' (fun t ht => hq t (by simp [ht])) (h w w' tx (hq tx (by simp)) hw heq)
+    · exact ih w (fun t ht => hq t (by simp [ht])) hw
+
+theorem inv_block (w : World) (txs : List Tx) (issue : Int) (inv : Inv w) : Inv (block w txs issue).1 := by
   have inv0 : Inv { w with height := w.height + 1, rest := w.rest + issue, totalSupply := w.totalSupply + issue } := by
     constructor
     · simp only []; rw [inv.supply]; omega
     · exact inv.stake
   unfold block
   simp only []
-  split
-  · rename_i w' heq
-    exact inv_fire w' (inv_applyTx _ w' tx inv0 heq).1
-  · exact inv_fire _ inv0
+  exact inv_fire _ (applyTxs_preserves Inv (fun _ => True)
+    (fun w w' tx _ hw h => (inv_applyTx w w' tx hw h).1) txs _ (fun _ _ => trivial) inv0)
 
 /-! ### delegated + bonded + unbonding ≤ stake -/
 
@@ -233,9 +269,11 @@ theorem fire_ok (h : Int) (a : Account) (ok : AcctOk a) : AcctOk (fire h a) := b
   obtain ⟨hu, hn⟩ := ok
   constructor
   · have := sumInt_filter_le a.unbonds (fun u => u.2.2 != h) (·.2.1) hn
-    simp only [fire, Account.usingStake, Account.unbonding, Account.delegating, Account.bonded] at *
+    simp only [Account.usingStake, Account.unbonding, Account.delegating, Account.bonded,
+      fire_stake, fire_delegs, fire_bonds, fire_unbonds] at *
     omega
   · intro u hu'
+    simp only [fire_unbonds] at hu'
     exact hn u (List.mem_filter.mp hu').1
 
 def AllOk (w : World) : Prop := ∀ a ∈ w.accts, AcctOk a
@@ -257,6 +295,15 @@ theorem allOk_applyTx (w w' : World) (tx : Tx) (ok : AllOk w) (h : applyTx w tx 
   rename_i hr
   cases tx with
   | none => cases h; exact ok
+  | register k =>
+    simp only [registerPRep] at h
+    split at h; · cases h
+    cases h; exact ok
+  | unregister k =>
+    simp only [unregisterPRep] at h
+    split at h; · cases h
+    split at h; · cases h
+    cases h; exact ok
   | stake i v =>
     have hi : i < w.accts.length := by simpa [Tx.inRange] using hr
     have ⟨_, hn⟩ := getAcct_ok w i hi ok
@@ -299,8 +346,9 @@ theorem allOk_applyTx (w w' : World) (tx : Tx) (ok : AllOk w) (h : applyTx w tx 
     split at h; · cases h
     split at h; · cases h
     split at h; · cases h
+    split at h; · cases h
     cases h
-    rename_i _ _ _ hv
+    rename_i _ _ _ _ hv
     intro x hx
     rcases List.mem_or_eq_of_mem_set hx with hm | rfl
     · exact ok x hm
@@ -328,18 +376,723 @@ theorem allOk_applyTx (w w' : World) (tx : Tx) (ok : AllOk w) (h : applyTx w tx 
     cases h
     exact allOk_set w i _ ok (getAcct_ok w i hi ok)
 
-theorem allOk_block (w : World) (tx : Tx) (issue : Int) (ok : AllOk w) : AllOk (block w tx issue).1 := by
+theorem allOk_block (w : World) (txs : List Tx) (issue : Int) (ok : AllOk w) : AllOk (block w txs issue).1 := by
   have ok0 : AllOk { w with height := w.height + 1, rest := w.rest + issue, totalSupply := w.totalSupply + issue } := ok
   unfold block
   simp only []
+  have := applyTxs_preserves AllOk (fun _ => True) (fun w w' tx _ hw h => allOk_applyTx w w' tx hw h) txs _
+    (fun _ _ => trivial) ok0
+  intro x hx
+  obtain ⟨y, hy, rfl⟩ := List.mem_map.mp hx
+  exact fire_ok _ y (this y hy)
+
+/-! ### unstake slots: where expiry heights come from, no overdue slot, slot lifetime -/
+
+theorem decreaseRev_expire : ∀ (l : List (Int × Int)) (r : Int), ∀ x ∈ decreaseRev l r, ∃ y ∈ l, x.2 = y.2 := by
+  intro l
+  induction l with
+  | nil => intro r x hx; simp [decreaseRev] at hx
+  | cons u rest ih =>
+    intro r x hx
+    simp only [decreaseRev] at hx
+    split at hx
+    · split at hx
+      · exact ⟨x, by simp [hx], rfl⟩
+      · obtain ⟨y, hy, e⟩ := ih _ x hx
+        exact ⟨y, by simp [hy], e⟩
+    · rcases List.mem_cons.mp hx with rfl | hm
+      · exact ⟨u, by simp, rfl⟩
+      · exact ⟨x, by simp [hm], rfl⟩
+
+theorem insertRev_mem : ∀ (l : List (Int × Int)) (u x : Int × Int),
+    x ∈ insertUnstake.decreaseRevInsert l u → x = u ∨ x ∈ l := by
+  intro l
+  induction l with
+  | nil => intro u x hx; simp [insertUnstake.decreaseRevInsert] at hx; exact Or.inl hx
+  | cons y rest ih =>
+    intro u x hx
+    simp only [insertUnstake.decreaseRevInsert] at hx
+    split at hx
+    · rcases List.mem_cons.mp hx with rfl | hm
+      · exact Or.inl rfl
+      · exact Or.inr hm
+    · rcases List.mem_cons.mp hx with rfl | hm
+      · exact Or.inr (by simp)
+      · rcases ih u x hm with h | h
+        · exact Or.inl h
+        · exact Or.inr (by simp [h])
+
+/-- every slot after the `switch stakeInc.Sign()` of SetStake expires at the new expiry height or
+    where an old slot expired -/
+theorem newUnstakes_expire (us : List (Int × Int)) (inc eh : Int) (sm : Nat) :
+    ∀ x ∈ newUnstakes us inc eh sm, x.2 = eh ∨ ∃ y ∈ us, x.2 = y.2 := by
+  intro x hx
+  unfold newUnstakes at hx
+  split at hx
+  · simp only [decreaseUnstake, List.mem_reverse] at hx
+    obtain ⟨y, hy, e⟩ := decreaseRev_expire _ _ x hx
+    exact Or.inr ⟨y, List.mem_reverse.mp hy, e⟩
+  · unfold increaseUnstake at hx
+    split at hx
+    · split at hx
+      · exact Or.inr ⟨x, hx, rfl⟩
+      · rename_i last rest heq
+        have hlast : last ∈ us := by
+          have : last ∈ us.reverse := by rw [heq]; simp
+          exact List.mem_reverse.mp this
+        have hrest : ∀ z ∈ rest, z ∈ us := by
+          intro z hz
+          have : z ∈ us.reverse := by rw [heq]; simp [hz]
+          exact List.mem_reverse.mp this
+        rcases List.mem_cons.mp (List.mem_reverse.mp hx) with rfl | hm
+        · simp only []
+          split
+          · exact Or.inl rfl
+          · exact Or.inr ⟨last, hlast, rfl⟩
+        · exact Or.inr ⟨x, hrest x hm, rfl⟩
+    · simp only [insertUnstake, List.mem_reverse] at hx
+      rcases insertRev_mem _ _ x hx with rfl | h
+      · exact Or.inl rfl
+      · exact Or.inr ⟨x, List.mem_reverse.mp h, rfl⟩
+
+theorem getAcct_setAcct (w : World) (i j : Nat) (a : Account) (hi : i < w.accts.length) :
+    getAcct (setAcct w i a) j = if i = j then a else getAcct w j := by
+  by_cases h : i = j
+  · subst h; simp only [getAcct, setAcct, if_true]; exact getD_set_eq _ _ _ hi
+  · simp only [getAcct, setAcct, h, if_false]; exact getD_set_ne _ _ _ _ h
+
+def stakesFrom (j : Nat) : Tx → Bool
+  | .stake i _ => i == j
+  | _ => false
+
+/-- what a successful transaction does to the unstake slots of account `j`, and that it leaves
+    height and lock period alone -/
+theorem applyTx_unstakes (w w' : World) (tx : Tx) (j : Nat) (h : applyTx w tx = some w') :
+    w'.height = w.height ∧ w'.lock = w.lock ∧
+    (stakesFrom j tx = false → (getAcct w' j).unstakes = (getAcct w j).unstakes) ∧
+    (∀ x ∈ (getAcct w' j).unstakes, x.2 = w.height + w.lock ∨ ∃ y ∈ (getAcct w j).unstakes, x.2 = y.2) := by
+  have keep : ∀ (w' : World), w'.height = w.height → w'.lock = w.lock →
+      (getAcct w' j).unstakes = (getAcct w j).unstakes →
+      w'.height = w.height ∧ w'.lock = w.lock ∧
+      (stakesFrom j tx = false → (getAcct w' j).unstakes = (getAcct w j).unstakes) ∧
+      (∀ x ∈ (getAcct w' j).unstakes, x.2 = w.height + w.lock ∨ ∃ y ∈ (getAcct w j).unstakes, x.2 = y.2) := by
+    intro w' h1 h2 h3
+    exact ⟨h1, h2, fun _ => h3, fun x hx => Or.inr ⟨x, by rw [← h3]; exact hx, rfl⟩⟩
+  unfold applyTx at h
+  split at h; · cases h
+  rename_i hr
+  cases tx with
+  | none => cases h; exact keep w rfl rfl rfl
+  | register k =>
+    simp only [registerPRep] at h
+    split at h; · cases h
+    cases h; exact keep _ rfl rfl rfl
+  | unregister k =>
+    simp only [unregisterPRep] at h
+    split at h; · cases h
+    split at h; · cases h
+    cases h; exact keep _ rfl rfl rfl
+  | stake i v =>
+    have hi : i < w.accts.length := by simpa [Tx.inRange] using hr
+    simp only [setStake] at h
+    split at h; · cases h
+    split at h
+    · cases h; exact keep w rfl rfl rfl
+    split at h; · cases h
+    split at h; · cases h
+    split at h; · cases h
+    split at h; · cases h
+    cases h
+    refine ⟨rfl, rfl, ?_, ?_⟩
+    · intro hs
+      have hij : i ≠ j := by simpa [stakesFrom] using hs
+      show (getAcct (setAcct w i _) j).unstakes = _
+      rw [getAcct_setAcct w i j _ hi, if_neg hij]
+    · intro x hx
+      change x ∈ (getAcct (setAcct w i _) j).unstakes at hx
+      rw [getAcct_setAcct w i j _ hi] at hx
+      by_cases hij : i = j
+      · subst hij
+        rw [if_pos rfl] at hx
+        exact newUnstakes_expire _ _ _ _ x hx
+      · rw [if_neg hij] at hx
+        exact Or.inr ⟨x, hx, rfl⟩
+  | deleg i ds =>
+    have hi : i < w.accts.length := by simpa [Tx.inRange] using hr
+    simp only [setDelegation] at h
+    split at h; · cases h
+    cases h
+    refine keep _ rfl rfl ?_
+    show (getAcct (setAcct w i _) j).unstakes = _
+    rw [getAcct_setAcct w i j _ hi]
+    by_cases hij : i = j
+    · subst hij; simp
+    · simp [hij]
+  | bond i bs al =>
+    have hi : i < w.accts.length := by simpa [Tx.inRange] using hr
+    simp only [setBond] at h
+    split at h; · cases h
+    split at h; · cases h
+    split at h; · cases h
+    split at h; · cases h
+    split at h; · cases h
+    cases h
+    refine keep _ rfl rfl ?_
+    show (getAcct (setAcct w i _) j).unstakes = _
+    rw [getAcct_setAcct w i j _ hi]
+    by_cases hij : i = j
+    · subst hij; simp
+    · simp [hij]
+  | xfer i k v =>
+    have hik : i < w.accts.length ∧ k < w.accts.length := by simpa [Tx.inRange] using hr
+    simp only [transfer] at h
+    split at h; · cases h
+    split at h
+    · cases h; exact keep w rfl rfl rfl
+    split at h; · cases h
+    cases h
+    refine keep _ rfl rfl ?_
+    have hk' : k < (setAcct w i { getAcct w i with balance := (getAcct w i).balance - v }).accts.length := by
+      simpa [setAcct] using hik.2
+    rw [getAcct_setAcct _ k j _ hk']
+    by_cases hkj : k = j
+    · subst hkj
+      simp only [if_true]
+      rw [getAcct_setAcct w i k _ hik.1]
+      by_cases hi2 : i = k
+      · subst hi2; simp
+      · simp [hi2]
+    · simp only [hkj, if_false]
+      rw [getAcct_setAcct w i j _ hik.1]
+      by_cases hi2 : i = j
+      · subst hi2; simp
+      · simp [hi2]
+  | claim i icx okc =>
+    have hi : i < w.accts.length := by simpa [Tx.inRange] using hr
+    simp only [claim] at h
+    split at h; · cases h
+    cases h
+    refine keep _ rfl rfl ?_
+    show (getAcct (setAcct w i _) j).unstakes = _
+    rw [getAcct_setAcct w i j _ hi]
+    by_cases hij : i = j
+    · subst hij; simp
+    · simp [hij]
+
+/-- inside a block: nothing expires before the current height -/
+def MidOk (w : World) : Prop := 0 ≤ w.lock ∧ ∀ j, ∀ u ∈ (getAcct w j).unstakes, w.height ≤ u.2
+
+/-- between blocks: every slot expires strictly later than the current height -/
+def NoOverdue (w : World) : Prop := 0 ≤ w.lock ∧ ∀ j, ∀ u ∈ (getAcct w j).unstakes, w.height < u.2
+
+theorem midOk_applyTx (w w' : World) (tx : Tx) (hw : MidOk w) (h : applyTx w tx = some w') : MidOk w' := by
+  constructor
+  · have := (applyTx_unstakes w w' tx 0 h).2.1
+    rw [this]; exact hw.1
+  · intro j u hu
+    obtain ⟨hh, _, _, hm⟩ := applyTx_unstakes w w' tx j h
+    rw [hh]
+    rcases hm u hu with e | ⟨y, hy, e⟩
+    · have := hw.1; omega
+    · have := hw.2 j y hy; omega
+
+/-- every slot's expiry height has the account in its unstaking timer -/
+def TimersOkW (w : World) : Prop :=
+  ∀ a ∈ w.accts, ∀ u ∈ a.unstakes, a.utimers.contains u.2 = true
+
+theorem fire_unstakes_ok (h : Int) (a : Account) (hok : ∀ u ∈ a.unstakes, a.utimers.contains u.2 = true) :
+    (fire h a).unstakes = a.unstakes.filter (fun u => u.2 != h) := by
+  unfold fire
+  simp only []
   split
-  · rename_i w' heq
-    have := allOk_applyTx _ w' tx ok0 heq
-    intro x hx
-    obtain ⟨y, hy, rfl⟩ := List.mem_map.mp hx
-    exact fire_ok _ y (this y hy)
-  · intro x hx
-    obtain ⟨y, hy, rfl⟩ := List.mem_map.mp hx
-    exact fire_ok _ y (ok0 y hy)
+  · rfl
+  · rename_i hc
+    symm
+    apply List.filter_eq_self.mpr
+    intro u hu
+    have := hok u hu
+    simp only [bne_iff_ne, ne_eq]
+    intro e
+    rw [e] at this
+    exact hc this
+
+theorem getAcct_fire (w : World) (h : Int) (j : Nat) (hok : TimersOkW w) :
+    (getAcct { w with accts := w.accts.map (fire h) } j).unstakes =
+      (getAcct w j).unstakes.filter (fun u => u.2 != h) := by
+  simp only [getAcct, List.getD, List.getElem?_map]
+  cases hj : w.accts[j]? with
+  | none => simp
+  | some a =>
+    simp only [Option.map_some, Option.getD_some]
+    exact fire_unstakes_ok h a (hok a (List.mem_of_getElem? hj))
+
+theorem applyTxs_height (txs : List Tx) : ∀ (w : World), (applyTxs w txs).1.height = w.height := by
+  induction txs with
+  | nil => intro w; rfl
+  | cons tx rest ih =>
+    intro w
+    simp only [applyTxs]
+    split
+    · rename_i w' heq
+      rw [ih w', (applyTx_unstakes w w' tx 0 heq).1]
+    · exact ih w
+
+theorem block_height (w : World) (txs : List Tx) (issue : Int) : (block w txs issue).1.height = w.height + 1 := by
+  simp only [block]
+  rw [applyTxs_height]
+
+theorem noOverdue_block (w : World) (txs : List Tx) (issue : Int) (hw : NoOverdue w)
+    (hok : TimersOkW (preFire w txs issue)) : NoOverdue (block w txs issue).1 := by
+  have m0 : MidOk { w with height := w.height + 1, rest := w.rest + issue, totalSupply := w.totalSupply + issue } :=
+    ⟨hw.1, fun j u hu => by have := hw.2 j u hu; show w.height + 1 ≤ u.2; omega⟩
+  have m1 := applyTxs_preserves MidOk (fun _ => True) (fun w w' tx _ hw h => midOk_applyTx w w' tx hw h) txs _
+    (fun _ _ => trivial) m0
+  unfold block
+  simp only []
+  constructor
+  · exact m1.1
+  · intro j u hu
+    unfold preFire at hok
+    rw [getAcct_fire _ _ _ hok] at hu
+    have ⟨hm, hf⟩ := List.mem_filter.mp hu
+    have := m1.2 j u hm
+    simp only [bne_iff_ne, ne_eq] at hf
+    show (applyTxs _ txs).1.height < u.2
+    omega
+
+/-- transactions that are not `stake j …` leave the slots of `j` alone -/
+theorem applyTxs_unstakes (j : Nat) (txs : List Tx) : ∀ (w : World), (∀ tx ∈ txs, stakesFrom j tx = false) →
+    (getAcct (applyTxs w txs).1 j).unstakes = (getAcct w j).unstakes := by
+  induction txs with
+  | nil => intro w _; rfl
+  | cons tx rest ih =>
+    intro w hq
+    simp only [applyTxs]
+    split
+    · rename_i w' heq
+      rw [ih w' (fun t ht => hq t (by simp [ht])), (applyTx_unstakes w w' tx j heq).2.2.1 (hq tx (by simp))]
+    · exact ih w (fun t ht => hq t (by simp [ht]))
+
+/-- one block in which `j` does not call setStake: exactly the slots expiring at the new height leave -/
+theorem block_unstakes (w : World) (txs : List Tx) (issue : Int) (j : Nat)
+    (hq : ∀ tx ∈ txs, stakesFrom j tx = false) (hok : TimersOkW (preFire w txs issue)) :
+    (getAcct (block w txs issue).1 j).unstakes =
+      (getAcct w j).unstakes.filter (fun u => u.2 != w.height + 1) := by
+  unfold block
+  simp only []
+  unfold preFire at hok
+  rw [getAcct_fire _ _ _ hok, applyTxs_unstakes j txs _ hq, applyTxs_height]
+  rfl
+
+/-- the timers are consistent with the slots before the timer phase of every block of the history -/
+def GoodTimers : World → List (List Tx × Int) → Prop
+  | _, [] => True
+  | w, op :: rest => TimersOkW (preFire w op.1 op.2) ∧ GoodTimers (block w op.1 op.2).1 rest
+
+theorem run_height (ops : List (List Tx × Int)) : ∀ (w : World), (run w ops).height = w.height + ops.length := by
+  induction ops with
+  | nil => intro w; simp [run]
+  | cons op rest ih =>
+    intro w
+    simp only [run, List.length_cons]
+    rw [ih, block_height]
+    omega
+
+/-- slot lifetime: over any history in which `j` does not call setStake, the slots of `j` that are
+    still there are exactly the original ones whose expiry lies in the future -/
+theorem slots_lifetime (j : Nat) (ops : List (List Tx × Int)) : ∀ (w : World),
+    (∀ u ∈ (getAcct w j).unstakes, w.height < u.2) →
+    (∀ op ∈ ops, ∀ tx ∈ op.1, stakesFrom j tx = false) → GoodTimers w ops →
+    (getAcct (run w ops) j).unstakes =
+      (getAcct w j).unstakes.filter (fun u => decide ((run w ops).height < u.2)) := by
+  induction ops with
+  | nil =>
+    intro w hno _ _
+    simp only [run]
+    symm
+    apply List.filter_eq_self.mpr
+    intro u hu
+    exact decide_eq_true (hno u hu)
+  | cons op rest ih =>
+    intro w hno hq hg
+    simp only [run]
+    have hb := block_unstakes w op.1 op.2 j (hq op (by simp)) hg.1
+    have hh := block_height w op.1 op.2
+    have hno' : ∀ u ∈ (getAcct (block w op.1 op.2).1 j).unstakes, (block w op.1 op.2).1.height < u.2 := by
+      intro u hu
+      rw [hb] at hu
+      have ⟨hm, hf⟩ := List.mem_filter.mp hu
+      have := hno u hm
+      have hne : u.2 ≠ w.height + 1 := by simpa using hf
+      omega
+    rw [ih _ hno' (fun o ho => hq o (by simp [ho])) hg.2, hb, List.filter_filter]
+    apply List.filter_congr
+    intro u hu
+    have hfin := run_height rest (block w op.1 op.2).1
+    have := hno u hu
+    by_cases hlt : (run (block w op.1 op.2).1 rest).height < u.2
+    · have hne : u.2 ≠ w.height + 1 := by omega
+      simp [hlt, hne]
+    · simp [hlt]
+
+/-! ### network totals of delegation and bond to active P-Reps -/
+
+/-- what the chain SCORE (`NewDelegations` / `NewBonds`) guarantees for a submitted vote list -/
+def VotesWF (vs : Votes) : Prop := (vs.map (·.1)).Nodup ∧ ∀ v ∈ vs, 0 ≤ v.2
+
+def TxWF : Tx → Prop
+  | .deleg _ ds => VotesWF ds
+  | .bond _ bs _ => VotesWF bs
+  | _ => True
+
+theorem votesTo_cons (k : Nat) (v : Nat × Int) (vs : Votes) :
+    votesTo k (v :: vs) = (if v.1 == k then v.2 else 0) + votesTo k vs := by
+  by_cases h : (v.1 == k) = true <;> simp [votesTo, List.filter_cons, h, sumInt_cons]
+
+theorem votesTo_zero (k : Nat) (vs : Votes) (h : ∀ v ∈ vs, v.1 ≠ k) : votesTo k vs = 0 := by
+  induction vs with
+  | nil => rfl
+  | cons v vs ih =>
+    rw [votesTo_cons, ih (fun x hx => h x (by simp [hx]))]
+    have : (v.1 == k) = false := beq_eq_false_iff_ne.mpr (h v (by simp))
+    simp [this]
+
+theorem votesTo_nonneg (k : Nat) (vs : Votes) (h : ∀ v ∈ vs, 0 ≤ v.2) : 0 ≤ votesTo k vs := by
+  induction vs with
+  | nil => exact Int.le_refl 0
+  | cons v vs ih =>
+    rw [votesTo_cons]
+    have := ih (fun x hx => h x (by simp [hx]))
+    have := h v (by simp)
+    split <;> omega
+
+theorem lookupLast_eq_votesTo (vs : Votes) (k : Nat) (hnd : (vs.map (·.1)).Nodup) :
+    lookupLast vs k = votesTo k vs := by
+  induction vs with
+  | nil => rfl
+  | cons v vs ih =>
+    have hnd' : (vs.map (·.1)).Nodup := by
+      simp only [List.map_cons, List.nodup_cons] at hnd; exact hnd.2
+    have hv : ∀ x ∈ vs, x.1 ≠ v.1 := by
+      simp only [List.map_cons, List.nodup_cons, List.mem_map, not_exists, not_and] at hnd
+      intro x hx; exact hnd.1 x hx
+    have ih' := ih hnd'
+    rw [votesTo_cons]
+    unfold lookupLast at *
+    rw [List.reverse_cons, List.find?_append]
+    cases hf : vs.reverse.find? (fun x => x.1 == k) with
+    | some x =>
+      rw [hf] at ih'
+      have hxk : (x.1 == k) = true := @List.find?_some _ (fun x => x.1 == k) x _ hf
+      have hxm : x ∈ vs := List.mem_reverse.mp (List.mem_of_find?_eq_some hf)
+      have hvk : (v.1 == k) = false := by
+        apply beq_eq_false_iff_ne.mpr
+        intro e
+        exact hv x hxm (by rw [eq_of_beq hxk, e])
+      simp only [Option.some_or, hvk]
+      simp only [] at ih'
+      rw [← ih']; simp
+    | none =>
+      rw [hf] at ih'
+      simp only [] at ih'
+      rw [← ih']
+      by_cases hvk : (v.1 == k) = true <;> simp [hvk]
+
+theorem activeSum_cons (act : Nat → Bool) (v : Nat × Int) (vs : Votes) :
+    activeSum act (v :: vs) = (if act v.1 then v.2 else 0) + activeSum act vs := by
+  by_cases h : act v.1 = true <;> simp [activeSum, List.filter_cons, h, sumInt_cons]
+
+theorem activeSum_activate (act : Nat → Bool) (k : Nat) (vs : Votes) (hk : act k = false) :
+    activeSum (fun x => if x = k then true else act x) vs = activeSum act vs + votesTo k vs := by
+  induction vs with
+  | nil => rfl
+  | cons v vs ih =>
+    rw [activeSum_cons, activeSum_cons, votesTo_cons, ih]
+    by_cases e : v.1 = k
+    · simp [e, hk]; omega
+    · have : (v.1 == k) = false := beq_eq_false_iff_ne.mpr e
+      simp [e, this]; omega
+
+theorem activeSum_deactivate (act : Nat → Bool) (k : Nat) (vs : Votes) (hk : act k = true) :
+    activeSum (fun x => if x = k then false else act x) vs = activeSum act vs - votesTo k vs := by
+  induction vs with
+  | nil => rfl
+  | cons v vs ih =>
+    rw [activeSum_cons, activeSum_cons, votesTo_cons, ih]
+    by_cases e : v.1 = k
+    · simp [e, hk]; omega
+    · have : (v.1 == k) = false := beq_eq_false_iff_ne.mpr e
+      simp [e, this]; omega
+
+theorem sumF_add (f g : Account → Int) (l : List Account) :
+    sumF (fun a => f a + g a) l = sumF f l + sumF g l := by
+  induction l with
+  | nil => rfl
+  | cons x xs ih => simp only [sumF, List.map_cons, sumInt_cons] at *; rw [ih]; omega
+
+theorem sumF_sub (f g : Account → Int) (l : List Account) :
+    sumF (fun a => f a - g a) l = sumF f l - sumF g l := by
+  induction l with
+  | nil => rfl
+  | cons x xs ih => simp only [sumF, List.map_cons, sumInt_cons] at *; rw [ih]; omega
+
+theorem sumF_congr (f g : Account → Int) (l : List Account) (h : ∀ a ∈ l, f a = g a) : sumF f l = sumF g l := by
+  induction l with
+  | nil => rfl
+  | cons x xs ih =>
+    simp only [sumF, List.map_cons, sumInt_cons] at *
+    rw [ih (fun a ha => h a (by simp [ha])), h x (by simp)]
+
+theorem sumF_nonneg (f : Account → Int) (l : List Account) (h : ∀ a ∈ l, 0 ≤ f a) : 0 ≤ sumF f l := by
+  induction l with
+  | nil => exact Int.le_refl 0
+  | cons x xs ih =>
+    simp only [sumF, List.map_cons, sumInt_cons] at *
+    have := ih (fun a ha => h a (by simp [ha]))
+    have := h x (by simp)
+    omega
+
+structure Totals (w : World) : Prop where
+  dP : ∀ k, w.pDelegated k = sumF (fun a => votesTo k a.delegs) w.accts
+  bP : ∀ k, w.pBonded k = sumF (fun a => votesTo k a.bonds) w.accts
+  tD : w.totalDeleg = sumF (fun a => activeSum w.active a.delegs) w.accts
+  tB : w.totalBond = sumF (fun a => activeSum w.active a.bonds) w.accts
+  wf : ∀ a ∈ w.accts, VotesWF a.delegs ∧ VotesWF a.bonds
+  reg : ∀ k, w.active k = true → w.registered k = true
+  btgt : ∀ a ∈ w.accts, ∀ b ∈ a.bonds, w.registered b.1 = true
+
+theorem getAcct_mem (w : World) (i : Nat) (hi : i < w.accts.length) : getAcct w i ∈ w.accts := by
+  simp only [getAcct, List.getD, List.getElem?_eq_getElem hi, Option.getD_some]
+  exact List.getElem_mem hi
+
+/-- replacing account `i` by one with the same vote lists keeps `Totals` -/
+theorem totals_same (w w' : World) (i : Nat) (a' : Account) (hi : i < w.accts.length) (T : Totals w)
+    (hacc : w'.accts = w.accts.set i a')
+    (hd : a'.delegs = (getAcct w i).delegs) (hb : a'.bonds = (getAcct w i).bonds) (h1 : w'.pDelegated = w.pDelegated) (h2 : w'.pBonded = w.pBonded)
+    (h3 : w'.totalDeleg = w.totalDeleg) (h4 : w'.totalBond = w.totalBond) (h5 : w'.active = w.active)
+    (h6 : w'.registered = w.registered) : Totals w' := by
+  have hm := getAcct_mem w i hi
+  have same : ∀ (f : Account → Int), f a' = f (getAcct w i) → sumF f w'.accts = sumF f w.accts := by
+    intro f hf
+    rw [hacc, sumF_set f _ _ _ hi]
+    simp only [getAcct] at hf
+    omega
+  constructor
+  · intro k; rw [h1, T.dP k, same]; simp only [hd]
+  · intro k; rw [h2, T.bP k, same]; simp only [hb]
+  · rw [h3, h5, T.tD, same]; simp only [hd]
+  · rw [h4, h5, T.tB, same]; simp only [hb]
+  · intro a ha
+    rw [hacc] at ha
+    rcases List.mem_or_eq_of_mem_set ha with hm' | rfl
+    · exact T.wf a hm'
+    · rw [hd, hb]; exact T.wf _ hm
+  · intro k hk; rw [h5] at hk; rw [h6]; exact T.reg k hk
+  · intro a ha b hb'
+    rw [hacc] at ha
+    rw [h6]
+    rcases List.mem_or_eq_of_mem_set ha with hm' | rfl
+    · exact T.btgt a hm' b hb'
+    · rw [hb] at hb'; exact T.btgt _ hm b hb'
+
+theorem totals_applyTx (w w' : World) (tx : Tx) (hq : TxWF tx) (T : Totals w) (h : applyTx w tx = some w') :
+    Totals w' := by
+  unfold applyTx at h
+  split at h; · cases h
+  rename_i hr
+  cases tx with
+  | none => cases h; exact T
+  | register k =>
+    simp only [registerPRep] at h
+    split at h; · cases h
+    rename_i hreg
+    have hreg' : w.registered k = false := by simpa using hreg
+    have hact : w.active k = false := by
+      cases hk : w.active k with
+      | false => rfl
+      | true => have := T.reg k hk; rw [hreg'] at this; cases this
+    cases h
+    have hnn : 0 ≤ w.pDelegated k := by
+      rw [T.dP k]
+      exact sumF_nonneg _ _ (fun a ha => votesTo_nonneg k _ (T.wf a ha).1.2)
+    have hb0 : sumF (fun a => votesTo k a.bonds) w.accts = 0 := by
+      rw [sumF_congr _ (fun _ => 0) _ (fun a ha => votesTo_zero k _ (fun b hb e => by
+        have := T.btgt a ha b hb; rw [e, hreg'] at this; cases this))]
+      exact (by induction w.accts with
+        | nil => rfl
+        | cons x xs ih => simp only [sumF, List.map_cons, sumInt_cons] at *; omega)
+    constructor
+    · exact T.dP
+    · exact T.bP
+    · show (if w.pDelegated k > 0 then w.totalDeleg + w.pDelegated k else w.totalDeleg) = _
+      rw [sumF_congr _ (fun a => activeSum w.active a.delegs + votesTo k a.delegs) _
+        (fun a _ => activeSum_activate w.active k a.delegs hact), sumF_add, ← T.tD, ← T.dP k]
+      split <;> omega
+    · show w.totalBond = _
+      rw [sumF_congr _ (fun a => activeSum w.active a.bonds + votesTo k a.bonds) _
+        (fun a _ => activeSum_activate w.active k a.bonds hact), sumF_add, ← T.tB, hb0]
+      omega
+    · exact T.wf
+    · intro x hx
+      show (if x = k then true else w.registered x) = true
+      by_cases e : x = k
+      · simp [e]
+      · have : w.active x = true := by simpa [e] using hx
+        simp [e, T.reg x this]
+    · intro a ha b hb
+      show (if b.1 = k then true else w.registered b.1) = true
+      by_cases e : b.1 = k
+      · simp [e]
+      · simp [e, T.btgt a ha b hb]
+  | unregister k =>
+    simp only [unregisterPRep] at h
+    split at h; · cases h
+    rename_i hact
+    have hact' : w.active k = true := by simpa using hact
+    split at h; · cases h
+    rename_i hbond
+    cases h
+    have hb0 : w.pBonded k = 0 := by
+      have : 0 ≤ w.pBonded k := by
+        rw [T.bP k]
+        exact sumF_nonneg _ _ (fun a ha => votesTo_nonneg k _ (T.wf a ha).2.2)
+      omega
+    constructor
+    · exact T.dP
+    · exact T.bP
+    · show w.totalDeleg - w.pDelegated k = _
+      rw [sumF_congr _ (fun a => activeSum w.active a.delegs - votesTo k a.delegs) _
+        (fun a _ => activeSum_deactivate w.active k a.delegs hact'), sumF_sub, ← T.tD, ← T.dP k]
+    · show w.totalBond = _
+      rw [sumF_congr _ (fun a => activeSum w.active a.bonds - votesTo k a.bonds) _
+        (fun a _ => activeSum_deactivate w.active k a.bonds hact'), sumF_sub, ← T.tB, ← T.bP k, hb0]
+      omega
+    · exact T.wf
+    · intro x hx
+      have : x ≠ k ∧ w.active x = true := by
+        by_cases e : x = k
+        · simp [e] at hx
+        · simpa [e] using hx
+      exact T.reg x this.2
+    · exact T.btgt
+  | stake i v =>
+    have hi : i < w.accts.length := by simpa [Tx.inRange] using hr
+    simp only [setStake] at h
+    split at h; · cases h
+    split at h
+    · cases h; exact T
+    split at h; · cases h
+    split at h; · cases h
+    split at h; · cases h
+    split at h; · cases h
+    cases h
+    exact totals_same w _ i _ hi T rfl rfl rfl rfl rfl rfl rfl rfl rfl
+  | claim i icx okc =>
+    have hi : i < w.accts.length := by simpa [Tx.inRange] using hr
+    simp only [claim] at h
+    split at h; · cases h
+    cases h
+    exact totals_same w _ i _ hi T rfl rfl rfl rfl rfl rfl rfl rfl rfl
+  | xfer i j v =>
+    have hij : i < w.accts.length ∧ j < w.accts.length := by simpa [Tx.inRange] using hr
+    simp only [transfer] at h
+    split at h; · cases h
+    split at h
+    · cases h; exact T
+    split at h; · cases h
+    cases h
+    have T1 : Totals (setAcct w i { getAcct w i with balance := (getAcct w i).balance - v }) :=
+      totals_same w _ i _ hij.1 T rfl rfl rfl rfl rfl rfl rfl rfl rfl
+    exact totals_same _ _ j _ (by simpa [setAcct] using hij.2) T1 rfl rfl rfl rfl rfl rfl rfl rfl rfl
+  | deleg i ds =>
+    have hi : i < w.accts.length := by simpa [Tx.inRange] using hr
+    have hm := getAcct_mem w i hi
+    simp only [setDelegation] at h
+    split at h; · cases h
+    cases h
+    have hold := (T.wf _ hm).1
+    constructor
+    · intro k
+      show w.pDelegated k + deltaVote (getAcct w i).delegs ds k = sumF (fun a => votesTo k a.delegs) (w.accts.set i _)
+      rw [sumF_set _ _ _ _ hi, T.dP k, deltaVote, lookupLast_eq_votesTo _ k hold.1]
+      simp only [getAcct]; omega
+    · intro k
+      show w.pBonded k = sumF (fun a => votesTo k a.bonds) (w.accts.set i _)
+      rw [sumF_set _ _ _ _ hi, T.bP k]; simp only [getAcct]; omega
+    · show w.totalDeleg + activeSum w.active ds - activeSum w.active (getAcct w i).delegs = sumF (fun a => activeSum w.active a.delegs) (w.accts.set i _)
+      rw [sumF_set _ _ _ _ hi, T.tD]; simp only [getAcct]; omega
+    · show w.totalBond = sumF (fun a => activeSum w.active a.bonds) (w.accts.set i _)
+      rw [sumF_set _ _ _ _ hi, T.tB]; simp only [getAcct]; omega
+    · intro a ha
+      rcases List.mem_or_eq_of_mem_set ha with hm' | rfl
+      · exact T.wf a hm'
+      · exact ⟨hq, (T.wf _ hm).2⟩
+    · exact T.reg
+    · intro a ha b hb
+      rcases List.mem_or_eq_of_mem_set ha with hm' | rfl
+      · exact T.btgt a hm' b hb
+      · exact T.btgt _ hm b hb
+  | bond i bs al =>
+    have hi : i < w.accts.length := by simpa [Tx.inRange] using hr
+    have hm := getAcct_mem w i hi
+    simp only [setBond] at h
+    split at h; · cases h
+    split at h; · cases h
+    rename_i hregd
+    split at h; · cases h
+    split at h; · cases h
+    split at h; · cases h
+    cases h
+    have hold := (T.wf _ hm).2
+    constructor
+    · intro k
+      show w.pDelegated k = sumF (fun a => votesTo k a.delegs) (w.accts.set i _)
+      rw [sumF_set _ _ _ _ hi, T.dP k]; simp only [getAcct]; omega
+    · intro k
+      show w.pBonded k + deltaVote (getAcct w i).bonds bs k = sumF (fun a => votesTo k a.bonds) (w.accts.set i _)
+      rw [sumF_set _ _ _ _ hi, T.bP k, deltaVote, lookupLast_eq_votesTo _ k hold.1]
+      simp only [getAcct]; omega
+    · show w.totalDeleg = sumF (fun a => activeSum w.active a.delegs) (w.accts.set i _)
+      rw [sumF_set _ _ _ _ hi, T.tD]; simp only [getAcct]; omega
+    · show w.totalBond + activeSum w.active bs - activeSum w.active (getAcct w i).bonds = sumF (fun a => activeSum w.active a.bonds) (w.accts.set i _)
+      rw [sumF_set _ _ _ _ hi, T.tB]; simp only [getAcct]; omega
+    · intro a ha
+      rcases List.mem_or_eq_of_mem_set ha with hm' | rfl
+      · exact T.wf a hm'
+      · exact ⟨(T.wf _ hm).1, hq⟩
+    · exact T.reg
+    · intro a ha b hb
+      rcases List.mem_or_eq_of_mem_set ha with hm' | rfl
+      · exact T.btgt a hm' b hb
+      · have hall : bs.all (fun b => w.registered b.1) = true := by simpa using hregd
+        exact List.all_eq_true.mp hall b hb
+
+theorem totals_fire (w : World) (h : Int) (T : Totals w) : Totals { w with accts := w.accts.map (fire h) } := by
+  constructor
+  · intro k; show w.pDelegated k = _
+    rw [sumF_map _ (fire h) (fun a => by simp only [fire_delegs])]; exact T.dP k
+  · intro k; show w.pBonded k = _
+    rw [sumF_map _ (fire h) (fun a => by simp only [fire_bonds])]; exact T.bP k
+  · show w.totalDeleg = _
+    rw [sumF_map _ (fire h) (fun a => by simp only [fire_delegs])]; exact T.tD
+  · show w.totalBond = _
+    rw [sumF_map _ (fire h) (fun a => by simp only [fire_bonds])]; exact T.tB
+  · intro a ha
+    obtain ⟨y, hy, rfl⟩ := List.mem_map.mp ha
+    rw [fire_delegs, fire_bonds]
+    exact T.wf y hy
+  · exact T.reg
+  · intro a ha b hb
+    obtain ⟨y, hy, rfl⟩ := List.mem_map.mp ha
+    rw [fire_bonds] at hb
+    exact T.btgt y hy b hb
+
+theorem totals_block (w : World) (txs : List Tx) (issue : Int) (hq : ∀ tx ∈ txs, TxWF tx) (T : Totals w) :
+    Totals (block w txs issue).1 := by
+  have T0 : Totals { w with height := w.height + 1, rest := w.rest + issue, totalSupply := w.totalSupply + issue } :=
+    ⟨T.dP, T.bP, T.tD, T.tB, T.wf, T.reg, T.btgt⟩
+  unfold block
+  simp only []
+  exact totals_fire _ _ (applyTxs_preserves Totals TxWF (fun w w' tx q hw h => totals_applyTx w w' tx q hw h) txs _ hq T0)
 
 end Goloop.C34.Proofs
